@@ -37,8 +37,8 @@ WATCHDOG_S = {"quick": 900, "thorough": 7200}
 
 MANIFEST = {
     "technique": "reference-model testing of layered configuration (generated layer stacks vs a precedence fold), generated CLI/toml/annotation strings through the real loaders, round-trip and rejection properties for structured option grammars",
-    "text": "Hypothesis generates stacks of up to five configuration layers over all sources (with repeats, None and falsy values) and compares every option and its reported source with a 10-line reference fold, including the --solver/--solver-command rule and repeated cached reads across many short-lived Config objects; option strings produced by an independent unparser go through load_config (scratch halmos.toml), with_natspec and with_devdoc; structured values (timeouts with units, error-code sets, array-length maps, CSV lists, trace events) are round-tripped and grammar-mutated malformed strings must be rejected.",
-    "note": "trusts the reference fold and the own unparser; annotation scoping through run_contract is exercised by the end-to-end checks (C10)",
+    "text": "Hypothesis generates stacks of up to five configuration layers over all sources (with repeats, None and falsy values) and compares every option and its reported source with a 10-line reference fold, including the --solver/--solver-command rule and repeated cached reads across many short-lived Config objects; option strings produced by an independent unparser go through load_config (scratch halmos.toml), with_natspec and with_devdoc; structured values (timeouts with units, error-code sets, array-length maps, CSV lists, trace events) are round-tripped and grammar-mutated malformed strings must be rejected; annotation scoping is checked with sibling-function annotations in the artifact (with_devdoc) and end to end through run_contract, where every test function must behave as under its own effective --loop whatever its siblings are annotated with.",
+    "note": "trusts the reference fold and the own unparser; natspec extraction from the AST happens in _main (needs forge) and is not driven",
 }
 
 OPTS = {
@@ -202,8 +202,9 @@ def loader_st():
     sub = lambda: st.lists(st.sampled_from(names), min_size=0, max_size=4, unique=True)  # noqa: E731
     vals = st.fixed_dictionaries({k: OPTS[k] for k in names})
     return st.builds(
-        lambda tk, tv, nk, nv, dk, dv, ck, cv: {"kind": "loader", "toml": {k: jsonable(tv[k]) for k in tk}, "natspec": {k: jsonable(nv[k]) for k in nk}, "devdoc": {k: jsonable(dv[k]) for k in dk}, "cli": {k: jsonable(cv[k]) for k in ck}},
-        sub(), vals, sub(), vals, sub(), vals, sub(), vals,
+        lambda tk, tv, nk, nv, dk, dv, ck, cv, ok, ov: {"kind": "loader", "toml": {k: jsonable(tv[k]) for k in tk}, "natspec": {k: jsonable(nv[k]) for k in nk}, "devdoc": {k: jsonable(dv[k]) for k in dk}, "cli": {k: jsonable(cv[k]) for k in ck},
+                                                        "other": {k: jsonable(ov[k]) for k in ok}},
+        sub(), vals, sub(), vals, sub(), vals, sub(), vals, sub(), vals,
     )
 
 
@@ -237,12 +238,20 @@ def run_loader(case, workdir):
     cli_args, cli_eff = to_args(case["cli"])
     nat_args, nat_eff = to_args(case["natspec"])
     dev_args, dev_eff = to_args(case["devdoc"])
+    # annotations of a *sibling* function of the same contract: must not affect check_x()
+    oth_args, _ = to_args(case.get("other", {}))
     try:
         cfg = load_config(argv + cli_args)
         if nat_args:
             cfg = with_natspec(cfg, "C", {"text": "some text @custom:halmos " + " ".join(shlex.quote(a) for a in nat_args) + "\n @dev more"})
-        if dev_args:
-            cj = {"metadata": {"output": {"devdoc": {"methods": {"check_x()": {"custom:halmos": " ".join(shlex.quote(a) for a in dev_args)}}}}}}
+        if dev_args or oth_args:
+            methods = {}
+            if oth_args:
+                methods["check_y()"] = {"custom:halmos": " ".join(shlex.quote(a) for a in oth_args)}
+                methods["check_x(uint256)"] = {"custom:halmos": " ".join(shlex.quote(a) for a in oth_args)}
+            if dev_args:
+                methods["check_x()"] = {"custom:halmos": " ".join(shlex.quote(a) for a in dev_args)}
+            cj = {"metadata": {"output": {"devdoc": {"methods": methods}}}}
             cfg = with_devdoc(cfg, "check_x()", cj)
     except SystemExit as e:
         return [(["loader", "exit"], f"SystemExit({e.code}) for valid inputs toml={tomlsrc} cli={cli_args} natspec={nat_args} devdoc={dev_args}")]
@@ -258,8 +267,54 @@ def run_loader(case, workdir):
     for name, (ev, es) in exp.items():
         gv, gs = cfg.value_with_source(name)
         if not eqv(gv, ev) or gs != es:
-            fails.append((["loader", name], f"{name}: got ({gv!r},{gs.name}) expected ({ev!r},{es.name}) toml={tomlsrc} cli={cli_args} natspec={nat_args} devdoc={dev_args}"))
+            fails.append((["loader", name], f"{name}: got ({gv!r},{gs.name}) expected ({ev!r},{es.name}) toml={tomlsrc} cli={cli_args} natspec={nat_args} devdoc={dev_args} sibling={oth_args}"))
     return fails[:3]
+
+
+# ---------------------------------------------------------------- annotation scoping through run_contract
+
+def scope_st():
+    t = st.builds(lambda t_, ann: {"t": t_, "loop": ann}, st.integers(0, 4), st.sampled_from([None, 1, 2, 3, 5, 7]))
+    return st.builds(lambda tests, cli, src: {"kind": "scope", "tests": tests, "cli_loop": cli, "base_source": src}, st.lists(t, min_size=2, max_size=3), st.sampled_from([1, 2, 3, 5]), st.sampled_from(["config_file", "config_file", "command_line"]))
+
+
+def run_scope(case):
+    """every test function must behave as under its own effective --loop, whatever its siblings are
+    annotated with: the function annotation if the base value comes from the config file, the base
+    value if it was given on the command line (command line > function annotation); compared with a
+    one-function contract run with that value and no annotation"""
+    from halmos.config import ConfigSource, default_config
+
+    from props import c10_bounds as c10
+    from vfw import e2e
+
+    def mk(loop, source):
+        base = default_config().with_overrides(ConfigSource.config_file, loop=loop) if source == "config_file" else default_config()
+        over = {"solver_command": e2e.YICES, "no_status": True, "solver_timeout_assertion": 30.0, "solver_timeout_branching": 0}
+        if source == "command_line":
+            over["loop"] = loop
+        return base.with_overrides(ConfigSource.command_line, **over)
+
+    fns = []
+    for i, t in enumerate(case["tests"]):
+        f = {"sig": f"check_s{i}(uint256)", "body": c10.sym_loop_body(t["t"], "panic")}
+        if t["loop"] is not None:
+            f["devdoc"] = f"--loop {t['loop']}"
+        fns.append(f)
+    cj, _, _ = e2e.artifact("T", fns)
+    src = case.get("base_source", "config_file")
+    r = e2e.run(cj, args=mk(case["cli_loop"], src), capture=False)
+    got = {k: (v.exitcode, v.num_models, v.num_bounded_loops) for k, v in r.by_sig().items()}
+    fails = []
+    for i, t in enumerate(case["tests"]):
+        sig = f"check_s{i}(uint256)"
+        eff = t["loop"] if (t["loop"] is not None and src == "config_file") else case["cli_loop"]
+        cj1, _, _ = e2e.artifact("T", [{"sig": sig, "body": c10.sym_loop_body(t["t"], "panic")}])
+        r1 = e2e.run(cj1, args=mk(eff, "command_line"), capture=False)
+        exp = {k: (v.exitcode, v.num_models, v.num_bounded_loops) for k, v in r1.by_sig().items()}.get(sig)
+        if got.get(sig) != exp:
+            fails.append((["scope", "function-annotation"], f"{sig} (t={t['t']}, own --loop {t['loop']}, {src} --loop {case['cli_loop']}, siblings {[x['loop'] for x in case['tests']]}): got {got.get(sig)} expected {exp} (as under --loop {eff})"))
+    return fails
 
 
 # ---------------------------------------------------------------- structured values
@@ -375,6 +430,8 @@ def run_case(case, workdir=None):
         return run_loader(case, wd)
     if k == "value":
         return run_value(case)
+    if k == "scope":
+        return run_scope(case)
     return run_malformed(case)
 
 
@@ -388,7 +445,9 @@ def nontrivial(case):
                 seen[o] = seen.get(o, 0) + 1
         return any(v >= 2 for v in seen.values()) or len({s for s, _ in ls}) < len(ls)
     if k == "loader":
-        return sum(1 for x in ("toml", "natspec", "devdoc", "cli") if case[x]) >= 2
+        return sum(1 for x in ("toml", "natspec", "devdoc", "cli", "other") if case.get(x)) >= 2
+    if k == "scope":
+        return len({t["loop"] for t in case["tests"]}) >= 2
     if k == "value":
         v = case["v"]
         return (isinstance(v, (list, dict)) and len(v) >= 2) or (isinstance(v, float) and v != int(v))
@@ -397,7 +456,7 @@ def nontrivial(case):
 
 def shards(tier):
     n = 1500 if tier == "quick" else 30000
-    return [{"mode": "stack", "n": n} for _ in range(6)] + [{"mode": "loader", "n": n // 6} for _ in range(4)] + [{"mode": "value", "n": n} for _ in range(3)] + [{"mode": "malformed"}]
+    return [{"mode": "stack", "n": n} for _ in range(6)] + [{"mode": "loader", "n": n // 6} for _ in range(4)] + [{"mode": "value", "n": n} for _ in range(3)] + [{"mode": "malformed"}] + [{"mode": "scope", "n": n // 60} for _ in range(2)]
 
 
 def run_shard(spec, seed, tier):
@@ -413,7 +472,7 @@ def run_shard(spec, seed, tier):
                 for b, d in run_case(case):
                     acc.fail(b, case, d)
         return acc
-    strat = {"stack": stack_st(), "loader": loader_st(), "value": value_st()}[spec["mode"]]
+    strat = {"stack": stack_st(), "loader": loader_st(), "value": value_st(), "scope": scope_st()}[spec["mode"]]
 
     def body(case):
         fails = run_case(case)
